@@ -200,6 +200,8 @@ func (s *System) stop(checkLog bool, timeout ...time.Duration) error {
 			break
 		case <-time.After(stopTimeout):
 			s.Logger().Error("actor system stop failed", log.Duration("timeout", stopTimeout))
+			// 状态已置为 stop，之后的 Stop 只会返回“已停止”，不会再有机会清理：超时返回前同样停止调度器，否则其协程永久存活
+			s.scheduler.Stop()
 			return vivid.ErrorActorSystemStopFailed.With(context.DeadlineExceeded)
 		}
 	}
